@@ -20,3 +20,7 @@ impl vstd::std_specs::cmp::OrdSpecImpl for Uuid {
         else if self.0 == other.0 { Ordering::Equal } else { Ordering::Greater }
     }
 }
+impl Uuid {
+    pub fn as_u128(&self) -> (r: u128) ensures r == self.0 { self.0 }
+    pub fn from_u128(v: u128) -> (r: Uuid) ensures r.0 == v { Uuid(v) }
+}
